@@ -21,7 +21,8 @@ from cfold import Folder, Num, NotConstant
 
 F = featlib.repo_path
 FILES = "|".join([F("kernel/space/"), F("kernel/trafo/"), F("kernel/shape.hpp"), F("kernel/eval_tags.hpp"),
-                  F("kernel/util/tiny_algebra.hpp"), F("kernel/geometry/intern/face_index_mapping.hpp"), "/verif/tu/c15_"])
+                  F("kernel/util/tiny_algebra.hpp"), F("kernel/geometry/intern/face_index_mapping.hpp"),
+                  F("kernel/geometry/intern/congruency_mapping.hpp"), "/verif/tu/c15_"])
 
 # accessor contract (DESIGN A.2): IndexSet / VertexSet subscripts are pure element accessors, the mesh /
 # trafo getters return sub-objects; get_num_entities(d) is the opaque entity count N[d]
@@ -746,15 +747,16 @@ def check_orientation(ck, facts, tag, inst, sh, dim, meths, syms, layout, slot_c
         return accessor_model(sx, n, callee, this_loc, args, fn)
 
     sx = SymEx([facts], opaque=model)
-    try:
-        sx.run(fp, args=[Loc("trafo_eval")])
-    except NotClosedForm as e:
-        ck.incomplete("E13.l3-orientation", "%s%s: prepare(): %s" % (tag, inst, e))
-        return False
-    defs = {"#" + loc_name(Loc("this", p)): v for p, v in sx.outputs("this").items()}
     sim_dim = {}
     problems = []
     unknown = []
+    try:
+        sx.run(fp, args=[Loc("trafo_eval")])
+        defs = {"#" + loc_name(Loc("this", p)): v for p, v in sx.outputs("this").items()}
+    except NotClosedForm as e:
+        # e.g. a branch on the orientation value: not a closed form, but decidable by the case analysis below
+        unknown.append("prepare() is not a closed form in the orientation mapping (%s)" % e)
+        defs = {}
     # the orientation sources: decided on the VALUES handed to the constructor (resolved accessor paths), so that
     # const locals / reference aliases for the index sets do not matter
     for nm, (n, argnames) in sims.items():
@@ -819,11 +821,109 @@ def check_orientation(ck, facts, tag, inst, sh, dim, meths, syms, layout, slot_c
             if want_n != have_n and not problems:
                 problems.append("%d of %d dofs of the dimension-%d entities are addressed through the orientation mapping" % (have_n, want_n, e))
     if unknown and not problems:
-        ck.incomplete("E13.l3-orientation", "%s%s: %s" % (tag, inst, "; ".join(unknown[:3])))
-        return False
+        # the symbolic form was not recognised (e.g. the mapping value is used as a subscript): decide by a finite case
+        # analysis instead -- evaluate prepare() concretely for every orientation code of the entities (the codes and the
+        # vertex permutations map(code, j) are the constant tables of Geometry::Intern::CongruencyMapping<entity,0>)
+        cprob, cunk = orientation_by_cases(facts, fp, sh, sims, sim_dim, syms, first_of, nper, slot_const)
+        if cprob:
+            problems = cprob
+        elif cunk:
+            ck.incomplete("E13.l3-orientation", "%s%s: %s" % (tag, inst, "; ".join((unknown + cunk)[:3])))
+            return False
+        else:
+            unknown = []
     ck.ob("E13.l3-orientation", tag + inst, not problems, "; ".join(problems[:3]) if problems else "%d slots = offset(entity) + SubIndexMapping<%s,e,0>::map(i,j), e in %s" % (len(syms), sh, sorted(set(sim_dim.values()))), fp.file, fp.line,
           sample={"slots": len(syms), "example": "%s = %s" % (slot_str(syms[0]), defs.get(syms[0]))})
     return not problems
+
+
+def congruency_table(facts, entity_shape):
+    """[code] -> tuple(map(code, j) for j) from Geometry::Intern::CongruencyMapping<entity,0>::map (folded constants);
+    only rows that are permutations are orientation codes"""
+    cls = "FEAT::Geometry::Intern::CongruencyMapping<FEAT::Shape::%s, 0>" % entity_shape
+    fs = [f for f in facts.find(name="map") if f.cls == cls]
+    if not fs:
+        raise NotClosedForm("%s::map not in the fact base" % cls)
+    d = shape_dim(entity_shape)
+    nv = d + 1 if entity_shape.startswith("Simplex") else 2 ** d
+    out = {}
+    for code in range(64):
+        row = []
+        try:
+            for j in range(nv):
+                fo = Folder([facts])
+                row.append(fo.num(fo.rvalue(fo.call_function(fs[0], [Num(Fraction(code)), Num(Fraction(j))]))).as_int())
+        except NotConstant:
+            break
+        if sorted(row) == list(range(nv)):
+            out[code] = tuple(row)
+    if not out:
+        raise NotClosedForm("%s::map does not fold to permutation tables" % cls)
+    return out
+
+
+def orientation_by_cases(facts, fp, sh, sims, sim_dim, syms, first_of, nper, slot_const):
+    """-> (problems, unknown).  prepare() evaluated concretely for every orientation code (all entities of one
+    dimension carry the same code in one run; the entries of different entities are independent)."""
+    problems, unknown = [], []
+    kind = "Simplex" if sh.startswith("Simplex") else "Hypercube"
+    try:
+        tables = {nm: congruency_table(facts, "%s<%d>" % (kind, e)) for nm, e in sim_dim.items()}
+    except NotClosedForm as e:
+        return [], [str(e)]
+    if not tables:
+        return [], ["no orientation mapping recognised"]
+    ncodes = max(len(t) for t in tables.values())
+    want_slots = {}
+    for s in syms:
+        m = re.match(r"^#this\.(\w+)\[(\d+)\]\[(\d+)\]$", s)
+        if not m:
+            return [], ["slot key %s is not array[entity][ordinal]" % slot_str(s)]
+        want_slots[s] = (m.group(1), int(m.group(2)), int(m.group(3)))
+    arr_dim = {}
+    for code_idx in range(ncodes):
+        codes = {nm: sorted(t)[min(code_idx, len(t) - 1)] for nm, t in tables.items()}
+
+        def model(sx, n, callee, this_loc, args, fn):
+            base = symex.strip_targs(callee)
+            if n["k"] in ("Construct", "TempObj") and base == "FEAT::Geometry::Intern::SubIndexMapping::SubIndexMapping":
+                return this_loc
+            if base == "FEAT::Geometry::Intern::SubIndexMapping::map" and this_loc is not None and len(args) == 2 and loc_name(this_loc) in tables:
+                nm = loc_name(this_loc)
+                return Poly.const(tables[nm][codes[nm]][sx.num(args[1]).as_int()])
+            return accessor_model(sx, n, callee, this_loc, args, fn)
+        sx = SymEx([facts], opaque=model)
+        try:
+            sx.run(fp, args=[Loc("trafo_eval")])
+        except NotClosedForm as e:
+            return [], ["prepare() with orientation codes %s: %s" % (codes, e)]
+        table = {"#" + loc_name(Loc("this", p)): v for p, v in sx.outputs("this").items()}
+        for s, (arr, i, j) in sorted(want_slots.items()):
+            v = table.get(s)
+            if v is None or v.const_value() is None:
+                unknown.append("orientation code %s: slot %s is %s" % (codes, slot_str(s), "never written" if v is None else v))
+                continue
+            # which mapping governs this array: the one whose table size fits the ordinals of the array
+            e = arr_dim.get(arr)
+            if e is None:
+                nord = max(jj for (a2, ii, jj) in want_slots.values() if a2 == arr) + 1
+                cands = [nm for nm, t in tables.items() if len(next(iter(t.values()))) == nord and nper.get(sim_dim[nm], 0) == nord]
+                if len(cands) != 1:
+                    return [], ["orientation mapping of the slot array %s not identified" % arr]
+                e = arr_dim[arr] = cands[0]
+            dim_e = sim_dim[e]
+            if (dim_e, i) not in first_of:
+                problems.append("slot %s addresses entity (dim %d, #%d) which has no dofs" % (slot_str(s), dim_e, i))
+                continue
+            want = first_of[(dim_e, i)] + tables[e][codes[e]][j]
+            if int(v.const_value()) != want:
+                problems.append("orientation code %d of entity (dim %d, #%d): %s = %s, required offset + map(code,%d) = %d (vertex permutation %s)" % (
+                    codes[e], dim_e, i, slot_str(s), v, j, want, tables[e][codes[e]]))
+            if code_idx == 0 and tables[e][codes[e]] == tuple(range(len(tables[e][codes[e]]))):
+                slot_const[s] = int(v.const_value())
+        if len(problems) > 6:
+            break
+    return problems, unknown
 
 
 def tensor_entries(outs, rank):
